@@ -326,6 +326,9 @@ def bell_instances():
         # single-party terms for ONE party only (tilted CHSH, both sides)
         ("tilted CHSH: marginal term on Alice's first setting only, +-1 outcomes", np.array([[1.0, 1], [1, -1]]), np.array([0.5, 0.0]), np.zeros(2), np.array([1.0, -1]), np.array([1.0, -1])),
         ("marginal terms on Bob only, 0/1 outcomes", np.array([[1.0, -0.5], [0.25, 1]]), np.zeros(2), np.array([0.5, -0.25]), np.array([1.0, 0]), np.array([1.0, 0])),
+        # exact zeros in the first row / column of the joint coefficients together with marginal terms on those settings
+        ("zero joint coefficient at (A0,B0), marginals on A0 and B0, +-1 outcomes", np.array([[0.0, 1], [1, -1]]), np.array([0.5, 0.0]), np.array([2.0, 0.0]), np.array([1.0, -1]), np.array([1.0, -1])),
+        ("zero first column of joint coefficients, marginal on A1, 0/1 outcomes", np.array([[0.0, 1], [0.0, -0.5]]), np.array([0.25, 1.0]), np.array([0.0, 0.5]), np.array([1.0, 0]), np.array([1.0, 0])),
         # INTEGER arrays for the joint coefficients and the outcome values (as in the docstring), fractional marginal coefficients
         ("integer-typed joint coefficients and outcome values, half-integer marginals", np.array([[1, 2], [2, -1]]), np.array([-1.5, 0.5]), np.array([-0.5, 0.25]),
          np.array([1, 0]), np.array([1, 0])),
@@ -357,6 +360,12 @@ def obligations(tier):
     for name, p, f in xor_instances():
         obs.append(SdpTask("quantum_value.program_is_tsirelson_dual", {"game": name}, (lambda p=p, f=f: XORGame(p, f).quantum_value()), ref_xor, instance=(p, f),
                            value_of=lambda r: 4 * (float(r) - 0.5), tol=1e-3))
+    # the 0/1 predicate stored with other dtypes (bool, unsigned and signed integers): same program
+    for name, p, f in xor_instances()[:2]:
+        for storage in ("uint8", "bool", "int64"):
+            obs.append(SdpTask("quantum_value.program_is_tsirelson_dual", {"game": name, "predicate_dtype": storage},
+                               (lambda p=p, f=f, storage=storage: XORGame(p, np.asarray(f).astype(storage)).quantum_value()), ref_xor, instance=(p, f),
+                               value_of=lambda r: 4 * (float(r) - 0.5), tol=1e-3))
     # the converted game's NPA relaxation (level 1) for rectangular question sets: every deterministic strategy is a feasible
     # point with its own value, and the generated constraints imply a non-signalling box (certificates of props/c07.py, run on
     # the game object XORGame.to_nonlocal_game() returns)
